@@ -113,7 +113,7 @@ func c18NewRealLog(dir, scratch string) (*c18RealLog, error) {
 		return nil, fmt.Errorf("CreateLog: %w", err)
 	}
 	// what cmd/sunlight uploads next to the log
-	if err := lb.Upload(ctx, "log.v3.json", c18LogV3JSON(), &ctlog.UploadOptions{ContentType: "application/json"}); err != nil {
+	if err := lb.Upload(ctx, "log.v3.json", c18LogV3JSON(nil), &ctlog.UploadOptions{ContentType: "application/json"}); err != nil {
 		return nil, err
 	}
 	return &c18RealLog{dir: dir, cfg: cfg, fb: fb}, nil
@@ -169,7 +169,7 @@ func c18RealFault(variant string) func(string) bool {
 
 // c18RenderReal lets the real log write dir for the history; the returned
 // description mirrors the one of c18RenderLog.
-func c18RenderReal(dir, scratch string, tr *c18Tree, variant string) (*c18Rendered, *c18RealLog, error) {
+func c18RenderReal(dir, scratch string, tr *c18Tree, variant, final string) (*c18Rendered, *c18RealLog, error) {
 	rl, err := c18NewRealLog(dir, scratch)
 	if err != nil {
 		return nil, nil, err
@@ -191,6 +191,19 @@ func c18RenderReal(dir, scratch string, tr *c18Tree, variant string) (*c18Render
 	}
 	if r.published > 0 {
 		r.audit = append([]int64{r.published}, r.audit...)
+	}
+	if final != "" {
+		// what cmd/sunlight uploads when it finds the log read-only
+		ft, ok := c18FinalFor(tr, r.published, final)
+		if !ok {
+			return nil, nil, nil
+		}
+		if final == "behind" {
+			r.healthy = false
+		}
+		if err := rl.fb.LocalBackend.Upload(context.Background(), "log.v3.json", c18LogV3JSON(ft), &ctlog.UploadOptions{ContentType: "application/json"}); err != nil {
+			return nil, nil, err
+		}
 	}
 	return r, rl, nil
 }
